@@ -27,9 +27,9 @@ Fragile == {"casepair", "callinfo", "mock"}
 \* generated IN-PACKAGE, unexported names, initialism-like unexported names, and a pair differing only in the case of
 \* the first letter.  Matters wherever the template derives identifiers from the method name (MFunc, MCalls, lockM, ...).
 MethodNames == {"AB", "lower", "initialism", "twins"}
-ClassTable == {[shape |-> s, names |-> ns, types |-> ts, mnames |-> mn, fragile |-> (ns \in Fragile),
+ClassTable == {[shape |-> s, names |-> ns, types |-> ts, mnames |-> mn, embed |-> em, fragile |-> (ns \in Fragile),
                 refpos |-> {i \in RefPositions(ts) : i <= s.ar /\ ~(s.var /\ i = s.ar)}] :
-                 s \in MCShapes, ns \in NameSets, ts \in TypeSets, mn \in MethodNames}
+                 s \in MCShapes, ns \in NameSets, ts \in TypeSets, mn \in MethodNames, em \in BOOLEAN}   \* embed: A comes from an embedded interface
 Classes == {c \in ClassTable : Applicable(c.names, c.types, c.shape)}
 
 ASSUME PrintT(<<"CLASSES", ToJson(Classes)>>)
